@@ -411,6 +411,11 @@ func derivesFromCallRec(v ssa.Value, isCall func(*ssa.Call) bool, idx int, seen 
 
 func allInstrs(fn *ssa.Function, f func(ssa.Instruction)) {
 	for _, b := range fn.Blocks {
+		if b == fn.Recover && len(b.Preds) == 0 {
+			// the block a recovered panic resumes in: it only reloads the result slots and returns them; it is
+			// not part of any normal path (RECOVER-RESULT reasons about the deferred function itself)
+			continue
+		}
 		for _, in := range b.Instrs {
 			f(in)
 		}
